@@ -39,11 +39,13 @@ def judge (stream : String) (kv : KV) : Option Verdict :=
   | "ex02" => some (ExJ.judge 2 kv)
   | "ex03" => some (ExJ.judge 3 kv)
   | "ex20" => some (ExJ.judge 20 kv)
+  | "ex16" => some (ExJ.judge 16 kv)
   | "vi" => some (ViSpec.judge 0 kv)
   | "vi05" => some (ViSpec.judge 5 kv)
   | "vi07" => some (ViSpec.judge 7 kv)
   | "vi13" => some (ViSpec.judge 13 kv)
   | "vi19" => some (ViSpec.judge 19 kv)
+  | "vi16" => some (ViSpec.judge 16 kv)
   | "vi09" => some (ViSpec.judge09 kv)
   | "vi08" => some (ViSpec08.judge kv)
   | "lops04" => some (LbufD.judgeLops 4 kv)
